@@ -180,6 +180,11 @@ static std::unique_ptr<Tree> make_tree(const std::string& flavour, const std::st
       return make_own<long>([](const Key& k) { return static_cast<long>(k.at(0)); },
                             [](long data, long key) { return data - key; },
                             [](long x) { return std::to_string(x); });
+   if (cmp == "wide")      // the same, with results that do not fit an int: keys are 3*2^30 apart (timestamps, address distances),
+                           // so a difference is a multiple of 2^32, or changes sign, when squeezed into 32 bits
+      return make_own<long long>([](const Key& k) { return static_cast<long long>(k.at(0)) * 3221225472LL; },
+                                 [](long long data, long long key) -> long long { return data - key; },
+                                 [](long long x) { return std::to_string(x / 3221225472LL); });
    if (cmp == "lexdiff")
       return make_own<Key>([](const Key& k) { return k; },
                            [](const Key& a, const Key& b) -> long {
